@@ -39,7 +39,7 @@ def parseMethod (m : Bytes) : R Bytes := if methodOk m then .ok m else .error .i
 def sHTTPslash : Bytes := [0x48, 0x54, 0x54, 0x50, 0x2F]
 
 /-- decimal digits → number (`int(match.group(n))`); CPython refuses more than 4300 digits with a
-    `ValueError`, which is *not* an `InvalidLine` (finding F28 until repaired). -/
+    `ValueError`, which `Protocol.parse` turns into `InvalidLine` since the F28 repair. -/
 def decNat (s : Bytes) : Nat := s.foldl (fun a b => a * 10 + (b.toNat - 0x30)) 0
 
 def parseProtocol (p : Bytes) : R (Nat × Nat) :=
@@ -50,7 +50,7 @@ def parseProtocol (p : Bytes) : R (Nat × Nat) :=
     | none => .error .invalidLine
     | some (a, b) =>
       if a.isEmpty || b.isEmpty || !a.all isDigit || !b.all isDigit then .error .invalidLine
-      else if a.length > 4300 || b.length > 4300 then .error (.escape "ValueError")
+      else if a.length > 4300 || b.length > 4300 then .error .invalidLine       -- `except ValueError: raise InvalidLine` (F28 repair)
       else .ok (decNat a, decNat b)
 
 /-- `b'%d' % n` for a natural number (`fuel` > number of digits) -/
